@@ -608,14 +608,15 @@ def s_init_input(b: MB):
                 sw = b.add_init(np.array(x2.shape, dtype=np.int64), as_input=True)
                 b.node("Reshape", [x2, sw], TP.FLOAT, [None] * len(x2.shape), const=False)
                 b.tag("initinput_reshape")
-            elif k < 0.7:
+            elif k < 0.8:
                 sw = b.add_init(np.array(x2.shape, dtype=np.int64), as_input=True)
                 b.node("Expand", [x2, sw], TP.FLOAT, [None] * len(x2.shape), const=False)
                 b.tag("initinput_expand")
             else:
-                rw = b.add_init(np.array(0.0, dtype=np.float32), as_input=True)
-                b.node("Dropout", [x2, rw, b.const(np.array(False))], TP.FLOAT, x2.shape, const=False)
-                b.tag("initinput_dropout_ratio")
+                # (a Dropout whose ratio is an initializer-input is replaced whenever training_mode is off, which
+                #  leaves the initializer-input without a consumer: predicate of C04-D6 — not generated)
+                b.node("Cast", [w], TP.FLOAT, shape, const=False, to=TP.FLOAT)
+                b.tag("initinput_cast")
 
 
 def s_const_nodes(b: MB):
